@@ -6,6 +6,7 @@
 pub mod account_world;
 pub mod archive_world;
 pub mod crash_world;
+pub mod crypto_world;
 pub mod eventlog_world;
 pub mod server_world;
 pub mod summary;
